@@ -833,7 +833,11 @@ class OpsMixin:
             if sym in ("==", "!="):
                 da, db = self.as_dec(a), self.as_dec(b)
                 if da is None or db is None:
-                    raise Unsupported("comparison of a decimal rendering with a general string")
+                    # general string: compare as strings (zero-padded int.to.str)
+                    sa = self.dec_to_str(a) if isinstance(a, SDec) else self.to_z3(a)
+                    sb = self.dec_to_str(b) if isinstance(b, SDec) else self.to_z3(b)
+                    e = sa == sb
+                    return self.wrap_bool(e if sym == "==" else z3.Not(e))
                 e = z3.And(da.v == db.v, self.dec_len(da) == self.dec_len(db))
                 return self.wrap_bool(e if sym == "==" else z3.Not(e))
             raise Unsupported("ordering of decimal renderings")
@@ -890,6 +894,14 @@ class OpsMixin:
         if isinstance(v, str) and v.isdigit() and v.isascii():
             return SDec(z3.IntVal(int(v)), len(v))
         return None
+
+    def dec_to_str(self, d):
+        s = z3.IntToStr(d.v)
+        pad = z3.Function("str.zeros", z3.IntSort(), z3.StringSort())
+        npad = z3.If(d.w - z3.Length(s) > 0, d.w - z3.Length(s), z3.IntVal(0))
+        self.run.assume(z3.Length(pad(npad)) == npad)
+        self.run.assume(z3.InRe(pad(npad), z3.Star(z3.Re("0"))))
+        return z3.Concat(pad(npad), s)
 
     def dec_len(self, d):
         nd = z3.Function("ndigits", z3.IntSort(), z3.IntSort())
@@ -1017,6 +1029,8 @@ class OpsMixin:
             raise Unsupported(f"attribute {obj.name}.{attr} not declared in the contract (line {self.lineno})")
         found = cref.find_attr(attr, after=start_after)
         if found is None:
+            if cref.any_incomplete():
+                raise Unsupported(f"attribute {obj.name}.{attr}: class {cref.name} has bases outside the repository source")
             if not self.spec:
                 raise RaiseSig(SExc(exc_class("AttributeError")), self.lineno)
             raise Unsupported(f"attribute {obj.name}.{attr} not found in class source")
@@ -1185,16 +1199,21 @@ class OpsMixin:
         for p, d in zip(a.kwonlyargs, a.kw_defaults):
             if d is not None:
                 defaults[p.arg] = d
-        for n in list(pos) + [x.arg for x in a.kwonlyargs]:
-            if n not in bound:
-                if n in defaults:
-                    bound[n] = self.eval(defaults[n], clo.env)
-                else:
-                    raise RaiseSig(SExc(exc_class("TypeError")), self.lineno)
-        env.vars.update(bound)
         is_gen = _has_yield(fn)
         saved_line = self.lineno
         self.func_stack.append((clo.name, clo.info or (self.func_stack[-1][1] if self.func_stack else None), clo.self_obj, clo.owner))
+        try:
+            # defaults are evaluated in the callee's module (names resolve against its file)
+            for n in list(pos) + [x.arg for x in a.kwonlyargs]:
+                if n not in bound:
+                    if n in defaults:
+                        bound[n] = self.eval(defaults[n], clo.env)
+                    else:
+                        raise RaiseSig(SExc(exc_class("TypeError")), self.lineno)
+        except BaseException:
+            self.func_stack.pop()
+            raise
+        env.vars.update(bound)
         self.call_depth += 1
         col = None
         if is_gen:
